@@ -100,8 +100,9 @@ type c33Plan struct {
 	kinds   []int  // damage kinds, applied in this order
 	readAll bool   // --read-all-packs
 	crash   int    // kill a first run at its k-th mutating operation, then run again
-	fault   string // one-shot read fault during the (judged) run: "" | pack-error | pack-garble | pack-transient | index-error | index-garble
+	fault   string // one-shot read fault during the (judged) run: "" | pack-error | pack-garble | pack-flip | pack-transient | index-error | index-garble
 	faultAt int    // ... at the k-th Load of a file of that type
+	wfault  bool   // additionally: re-run on clones of the damaged repository with the k-th mutating operation failing, for every k
 }
 
 const (
@@ -130,24 +131,32 @@ func c33MakePlan(class string, r *rand.Rand) c33Plan {
 		p.scale = uint(3 + r.Intn(6))
 		p.kinds = [][]int{{c33PackMissing}, {c33PackTruncated}, {c33PackMissing, c33PackTruncated}, {c33Bogus}, {c33PackMissing, c33IndexPartial}, {c33PackTruncated, c33IndexDuplicated}}[r.Intn(6)]
 		if r.Intn(3) == 0 {
-			p.kinds = append(p.kinds, []int{c33IndexDeleted, c33PackBlobBitflip, c33IndexSplit, c33PackMissing}[r.Intn(4)])
+			p.kinds = append(p.kinds, []int{c33IndexDeleted, c33PackBlobBitflip, c33IndexSplit, c33PackMissing, c33IndexPartial}[r.Intn(5)])
 		}
 		p.readAll = r.Intn(6) == 0
 		if r.Intn(4) == 0 {
 			p.crash = 1 + r.Intn(5)
 		}
+	case "wfault":
+		// the damage makes the index rewrite do real work; the backend then rejects one write / delete of the run
+		if r.Intn(3) == 0 {
+			p.scale = uint(3 + r.Intn(6))
+		}
+		p.kinds = [][]int{{c33PackMissing}, {c33IndexDeleted}, {c33PackTruncated, c33IndexDeleted}, {c33Bogus}, {c33IndexPartial}, {c33PackMissing, c33IndexDuplicated}, {}}[r.Intn(7)]
+		p.readAll = r.Intn(8) == 0 // (with --read-all-packs the rewrite only deletes: little to go wrong)
+		p.wfault = true
 	case "rfault":
 		if r.Intn(3) == 0 {
 			p.scale = uint(3 + r.Intn(6))
 		}
-		p.fault = []string{"pack-error", "pack-garble", "pack-error", "pack-garble", "pack-transient", "index-error", "index-garble"}[r.Intn(7)]
+		p.fault = []string{"pack-error", "pack-garble", "pack-flip", "pack-error", "pack-garble", "pack-flip", "pack-transient", "index-error", "index-garble"}[r.Intn(9)]
 		if strings.HasPrefix(p.fault, "index-") {
 			// an index file that cannot be loaded is dropped and the packs it described are read instead
 			p.kinds = [][]int{{}, {c33IndexDeleted}, {c33PackMissing}, {c33PackTruncated}}[r.Intn(4)]
 			p.faultAt = 1 + r.Intn(3)
 		} else {
 			// repair must have pack headers to read: lost index files or --read-all-packs
-			p.kinds = [][]int{{c33AllIndexDeleted}, {c33IndexDeleted}, {c33IndexDeleted, c33IndexDeleted}, {}, {c33IndexTruncated}, {c33IndexDeleted, c33PackTruncated}}[r.Intn(6)]
+			p.kinds = [][]int{{c33AllIndexDeleted}, {c33IndexDeleted}, {c33IndexDeleted, c33IndexDeleted}, {}, {c33IndexTruncated}, {c33IndexDeleted, c33PackTruncated}, {c33IndexPartial}, {c33IndexPartial, c33IndexDeleted}}[r.Intn(8)]
 			p.readAll = len(p.kinds) == 0 || r.Intn(4) == 0
 			p.faultAt = 1 + r.Intn(2)
 			if p.readAll || p.kinds[0] == c33AllIndexDeleted {
@@ -165,7 +174,7 @@ func c33MakePlan(class string, r *rand.Rand) c33Plan {
 		if r.Intn(3) == 0 {
 			p.crash = 1 + r.Intn(5)
 		} else if r.Intn(4) == 0 {
-			p.fault = []string{"pack-error", "pack-garble", "pack-transient"}[r.Intn(3)]
+			p.fault = []string{"pack-error", "pack-garble", "pack-flip", "pack-transient"}[r.Intn(4)]
 			p.faultAt = 1 + r.Intn(3)
 		}
 	}
@@ -273,7 +282,7 @@ func c33FullIndexesListingBadPacks(e *vEnv) int {
 }
 
 // c33ReadFault arms a one-shot read fault: the k-th Load of a file of the given type goes wrong once (an error
-// the retry layer passes on at once, an error it retries itself, or a successful read that delivers garbage);
+// the retry layer passes on at once, an error it retries itself, or a successful read that delivers garbage / one flipped bit);
 // every other read is served normally.  Returns a function telling whether the fault was delivered.
 func c33ReadFault(e *vEnv, fault string, k int) func() bool {
 	var mu sync.Mutex
@@ -301,6 +310,16 @@ func c33ReadFault(e *vEnv, fault string, k int) func() bool {
 			return nil, fmt.Errorf("%w (one-shot read fault on %v)", kit.ErrInjected, h)
 		case strings.HasSuffix(fault, "-transient"):
 			return nil, fmt.Errorf("verif: connection reset while reading %v (one-shot)", h)
+		case strings.HasSuffix(fault, "-flip") && len(d) > 0:
+			// one flipped bit near the end of what was asked for (a pack header sits at the end of the file, in front
+			// of its 4 length bytes): lengths and layout stay plausible, authentication fails
+			g := append([]byte{}, d...)
+			at := len(g) - 5 - (k*7)%24
+			if at < 0 {
+				at = len(g) / 2
+			}
+			g[at] ^= 0x04
+			return g, nil
 		default:
 			g := append([]byte{}, d...)
 			for i := range g {
@@ -312,17 +331,127 @@ func c33ReadFault(e *vEnv, fault string, k int) func() bool {
 	return func() bool { mu.Lock(); defer mu.Unlock(); return fired }
 }
 
+// vSoundEntries returns the index entries (pack/blob) a fresh process loads that describe a blob listed by the
+// header of a pack file that is present.
+func vSoundEntries(e *vEnv) map[string]bool {
+	res := map[string]bool{}
+	repo, err := e.open()
+	if err != nil {
+		return res
+	}
+	ctx := context.Background()
+	if err := repo.LoadIndex(ctx, restic.NoopTerminalCounterFactory); err != nil {
+		return res
+	}
+	listed := map[string]bool{}
+	for _, name := range e.store.Names(backend.PackFile) {
+		d, _ := e.store.Get(backend.Handle{Type: backend.PackFile, Name: name})
+		if bl, _, err := pack.List(repo.Key(), bytes.NewReader(d), int64(len(d))); err == nil {
+			for _, b := range bl {
+				listed[name+"/"+b.ID.String()] = true
+			}
+		}
+	}
+	_ = repo.ListBlobs(ctx, func(pb restic.PackBlob) {
+		k := pb.PackID().String() + "/" + pb.Handle().ID.String()
+		if listed[k] {
+			res[k] = true
+		}
+	})
+	return res
+}
+
+// c33WriteFaults re-runs `repair index` on clones of the damaged repository (base) with the k-th mutating backend
+// operation of the run rejected - before taking effect for every k, after taking effect for some k.  A run that
+// reports success must have produced the exact index; whatever a run reports, it must not lose a correct index
+// entry that existed before (the trace of every run is judged by RepoTrace.tla as well).
+func c33WriteFaults(t *testing.T, res *kit.Result, tr *kit.NDJSON, e *vEnv, base map[backend.Handle][]byte, nmut int, opts RepairIndexOptions, seed int64, desc string, r *rand.Rand) {
+	key := e.projector().Key
+	for _, n := range e.store.Names(backend.LockFile) {
+		delete(base, backend.Handle{Type: backend.LockFile, Name: n})
+	}
+	type fk struct {
+		k     int
+		after bool
+	}
+	var plan []fk
+	for k := 1; k <= nmut; k++ {
+		plan = append(plan, fk{k, false})
+	}
+	nafter := kit.Pick(3, nmut)
+	for i, k := range r.Perm(nmut) {
+		if i < nafter {
+			plan = append(plan, fk{k + 1, true})
+		}
+	}
+	for _, f := range plan {
+		st := kit.NewStoreFrom(base)
+		st.AtomicReplace = true
+		fe := newVEnv(t, st)
+		fe.proj = kit.NewProjector(key)
+		before := vSoundEntries(fe)
+		packsBefore := st.Names(backend.PackFile)
+		start := st.NumOps()
+		st.Fault = kit.FailAt(f.k, f.after)
+		ok := false
+		ferr := fe.run("repair-index", func() kit.Ev { return kit.Ev{"repairindex": ok} }, func(ctx context.Context, g global.Options) error {
+			rerr := runRebuildIndex(ctx, opts, g, g.Term)
+			ok = rerr == nil
+			return rerr
+		})
+		st.Revive()
+		hit := false
+		for _, op := range st.Ops()[start:] {
+			if op.Injected {
+				hit = true
+			}
+		}
+		fdesc := fmt.Sprintf("%s; mutating op %d of the run fails (after effect: %v), run reported %v", desc, f.k, f.after, ferr)
+		res.Case(fmt.Sprintf("%d/fail@%d/%v", seed, f.k, f.after), hit)
+		res.Count("write_fault_runs", 1)
+		if ferr == nil {
+			res.Count("write_fault_runs_reporting_success", 1)
+			if diffs := vIndexVsPacks(t, fe); len(diffs) > 0 && !(!opts.ReadAllPacks && strings.Contains(desc, "bogus-index-wrong-offsets") && strings.Contains(diffs[0], "do not lead to its intact blobs")) {
+				res.Violate("repair-index/backend-error/success-reported-but-index-differs-from-packs", fmt.Sprintf("scenario %d (%s): %v", seed, fdesc, diffs), map[string]any{"scenario": seed, "k": f.k, "after_effect": f.after})
+			}
+		}
+		after := vSoundEntries(fe)
+		var lost []string
+		for k := range before {
+			if !after[k] {
+				lost = append(lost, k[:8]+"/"+k[65:73])
+			}
+		}
+		if len(lost) > 0 {
+			sort.Strings(lost)
+			if len(lost) > 4 {
+				lost = lost[:4]
+			}
+			res.Violate("repair-index/backend-error/correct-index-entries-lost", fmt.Sprintf("scenario %d (%s): %d correct entries (pack/blob) are no longer indexed, e.g. %v", seed, fdesc, len(lost), lost), map[string]any{"scenario": seed, "k": f.k, "after_effect": f.after})
+		}
+		if strings.Join(packsBefore, ",") != strings.Join(st.Names(backend.PackFile), ",") {
+			res.Violate("repair-index/pack-set-changed", fmt.Sprintf("scenario %d (%s): pack files changed", seed, fdesc), map[string]any{"scenario": seed, "k": f.k})
+		}
+		tr.Write(kit.Ev{"ev": "Reset", "proc": "env", "history": seed, "desc": fdesc})
+		for _, ev := range fe.proj.InitEvents(base) {
+			tr.Write(ev)
+		}
+		vWriteTrace(tr, fe.trace(false))
+	}
+}
+
 func TestVerif_C33(t *testing.T) {
-	res := kit.NewResult("one case = one `repair index` run (with / without --read-all-packs, optionally killed at its k-th mutating operation and re-run, optionally with one Load of a pack / index file going wrong once: error or garbled bytes) on a generated repository (built with the production index.Full rule or with the threshold scaled to 3..8 blobs, so that it has several full index files) damaged by a subset of {index file deleted, truncated, bit-flipped, duplicated, partial, split, replaced by a bogus-but-valid (optionally full) index naming wrong offsets / missing packs / foreign blobs, pack file missing, pack file truncated (header unreadable), blob area of a pack bit-flipped, orphan pack}; judged by RepoTrace.tla RepairIndexExact + pack set unchanged, and by comparing the index a fresh process loads with the real pack headers (offset, length, uncompressed length); distinct by scenario seed")
+	res := kit.NewResult("one case = one `repair index` run (with / without --read-all-packs, optionally killed at its k-th mutating operation and re-run, optionally with one Load of a pack / index file going wrong once: error, garbled bytes or one flipped bit; for part of the scenarios additionally one run per mutating backend operation of the repair with that operation rejected before / after taking effect) on a generated repository (built with the production index.Full rule or with the threshold scaled to 3..8 blobs, so that it has several full index files) damaged by a subset of {index file deleted, truncated, bit-flipped, duplicated, partial, split, replaced by a bogus-but-valid (optionally full) index naming wrong offsets / missing packs / foreign blobs, pack file missing, pack file truncated (header unreadable), blob area of a pack bit-flipped, orphan pack}; judged by RepoTrace.tla RepairIndexExact + pack set unchanged, and by comparing the index a fresh process loads with the real pack headers (offset, length, uncompressed length); distinct by scenario seed")
 	tr := kit.NewNDJSON("trace.ndjson")
 	defer tr.Close()
-	// quick: 8 random + 6 full-index + 6 read-fault scenarios; thorough: 300 (1/2 random, 1/4 each targeted class)
+	// quick: 5 random + 6 full-index + 6 read-fault + 3 write-fault scenarios (the latter with one run per failing
+	// operation); thorough: 300 (3/8 random, 1/4 full-index, 1/4 read-fault, 1/8 write-fault)
 	classOf := func(si int) string {
 		if kit.Thorough() {
-			return []string{"rand", "full", "rand", "rfault"}[si%4]
+			return []string{"rand", "full", "rand", "rfault", "rand", "full", "wfault", "rfault"}[si%8]
 		}
-		return []string{"rand", "full", "rfault", "rand", "full", "rfault", "rand", "full", "rfault", "rand", "full", "rfault",
-			"rand", "full", "rfault", "rand", "full", "rfault", "rand", "rand"}[si%20]
+		return []string{"rand", "full", "rfault", "wfault", "full", "rfault", "rand", "full", "rfault", "rand", "full", "rfault",
+			"rand", "full", "rfault", "wfault", "full", "rfault", "wfault", "rand"}[si%20]
 	}
 	ns := kit.Pick(20, 300)
 	defer vScaleIndexFull(0)
@@ -352,6 +481,10 @@ func TestVerif_C33(t *testing.T) {
 			}
 		}
 		fullBad := c33FullIndexesListingBadPacks(e)
+		var base map[backend.Handle][]byte
+		if plan.wfault {
+			base = e.store.Files()
+		}
 		packsBefore := e.store.Names(backend.PackFile)
 		opts := RepairIndexOptions{ReadAllPacks: plan.readAll}
 		desc := fmt.Sprintf("class=%s index.Full=%d %v read-all-packs=%v crash=%d fault=%s@%d", plan.class, plan.scale, damage, opts.ReadAllPacks, plan.crash, plan.fault, plan.faultAt)
@@ -367,12 +500,22 @@ func TestVerif_C33(t *testing.T) {
 		// a run that reports failure after a read error of the backend promised nothing: its end state is judged by
 		// the storage invariants only, not by the post-condition of a completed repair
 		excused := false
+		refStart := e.store.NumOps()
 		err = e.run("repair-index", func() kit.Ev { return kit.Ev{"repairindex": !excused} }, func(ctx context.Context, g global.Options) error {
 			rerr := runRebuildIndex(ctx, opts, g, g.Term)
-			excused = rerr != nil && fired() && !strings.HasSuffix(plan.fault, "-garble")
+			excused = rerr != nil && fired() && (strings.HasSuffix(plan.fault, "-error") || strings.HasSuffix(plan.fault, "-transient"))
 			return rerr
 		})
 		e.store.ReadFault = nil
+		if plan.wfault && err == nil {
+			nmut := 0
+			for _, op := range e.store.Ops()[refStart:] {
+				if op.Kind == "Save" || op.Kind == "Remove" {
+					nmut++
+				}
+			}
+			c33WriteFaults(t, res, tr, e, base, nmut, opts, seed, desc, r)
+		}
 		vScaleIndexFull(0)
 		res.Case(fmt.Sprintf("%d", seed), len(damage) > 0 || fired())
 		res.Count("class_"+plan.class, 1)
